@@ -87,7 +87,12 @@ func (k *Keeper) NewEVM(
 			}
 
 			metadata := contract.GetMetadata()
-			contracts = append(contracts, corevm.NewCustomPrecompiledContract(common.BytesToAddress(metadata.Address), methods, metadata.Name))
+			customContract := corevm.NewCustomPrecompiledContract(common.BytesToAddress(metadata.Address), methods, metadata.Name)
+			if cpc, ok := customContract.(*corevm.CustomPrecompiledContract); ok {
+				// a contract marked as disabled must not be executable
+				customContract = cpc.WithDisabled(metadata.Disabled)
+			}
+			contracts = append(contracts, customContract)
 		}
 		evm = evm.WithCustomPrecompiledContracts(contracts...)
 	}
